@@ -112,7 +112,7 @@ def gen_obj(rng, base, unit, grid):
             row = [rng.choice((0.0, 0.5, 1.0, -1.0, 2.5, -0.25)) * unit for _ in range(g["num_steps"])]
             row[0] = row[-1] = 0.0
             vals.append(row)
-        spec = dict(g, t="approx_vals", values=vals, hom_deg=hd)
+        spec = dict(g, t="approx_vals", values=vals, hom_deg=hd, layout=rng.choice(("c", "c", "fortran")))
         if rng.random() < 0.4:            # integer samples handed over as an integer array
             spec["values"] = [[float(rng.choice((0, 1, 2, -1, 3))) for _ in range(g["num_steps"])] for _ in range(nd)]
             for row in spec["values"]:
@@ -260,6 +260,11 @@ def build(spec, Exact, Approx, tools):
         arr_ = np.array(v, dtype=float)
         if spec.get("int_values") and np.all(arr_ == np.round(arr_)):
             arr_ = arr_.astype(np.int64)
+        lay_ = spec.get("layout", "c")
+        if lay_ == "fortran":
+            arr_ = np.asfortranarray(arr_)                    # e.g. samples stored column-wise and handed over as samples.T
+        elif lay_ != "c":
+            raise InvalidCase("layout")
         return quiet(Approx, values=arr_, hom_deg=hd, **g)
     if t == "vectorize":
         src = build(spec["src"], Exact, Approx, tools)
